@@ -8,7 +8,7 @@
 From Coq Require Import List Bool Arith Ascii String NArith ZArith.
 From UV.Base Require Import Order Res.
 From UV.Py Require Import PyStr.
-From UV.Schemes Require Import Common Generic LegacyOpenssl Gentoo GentooProofs Debian DebianProofs Semver SemverProofs Rpm Gem GemProofs Openssl.
+From UV.Schemes Require Import Common Generic LegacyOpenssl Gentoo GentooProofs Debian DebianProofs Semver SemverProofs Rpm Gem GemProofs Openssl Maven.
 From UV.Ref Require Deb Semver Gentoo Openssl Rpm.
 Import ListNotations.
 
@@ -48,6 +48,11 @@ Theorem C03_openssl_dispatch : forall x y,
   (forall x', ossl_cmp (OLeg x) (OLeg x') = leg_cmp x x') /\ (forall y', ossl_cmp (OSem y) (OSem y') = semver_cmp y y').
 Proof. intros x y. repeat split. Qed.
 
+(* maven: maven.py is a port of ComparableVersion; its model is the transliteration of the Java (Ref/Maven.v) *)
+Theorem C03_maven : forall n1 n2 a b, maven_ctor n1 = Ok a -> maven_ctor n2 = Ok b ->
+  maven_cmp a b = UV.Ref.Maven.ref_maven (UV.Schemes.Generic.normalize n1) (UV.Schemes.Generic.normalize n2).
+Proof. exact maven_matches_reference. Qed.
+
 (* non-vacuity: concrete versions meet the hypotheses *)
 Example C03_domains_inhabited :
   (exists a b, deb_ctor (list_ascii_of_string "1:2.4.7-1ubuntu1~rc1") = Ok a /\ deb_ctor (list_ascii_of_string "2.4.7+dfsg-1A") = Ok b /\ dok a = true /\ dok b = true)
@@ -66,4 +71,5 @@ Print Assumptions C03_semver_precedence.
 Print Assumptions C03_legacy_openssl.
 Print Assumptions C03_gem.
 Print Assumptions C03_openssl_dispatch.
+Print Assumptions C03_maven.
 Print Assumptions C03_domains_inhabited.
